@@ -148,10 +148,15 @@ def transform_list(draw, box, allow_degenerate=False):
         k = draw(st.sampled_from(["translate", "translate", "scale", "rotate", "rotate", "skewX", "skewY", "matrix"]))
         if k == "translate":
             tx = round(draw(st.integers(-40, 40)) / 100 * box.w, 2)
+            sx_ = fmt(tx)
+            if tx and draw(st.integers(0, 5)) == 0:
+                # the same number in exponent notation, with and without a sign in the exponent (3e1, 30E-1, 0.3e+2)
+                d_ = Decimal(sx_)
+                sx_ = draw(st.sampled_from([f"{d_.scaleb(-1):f}e1", f"{d_.scaleb(-1):f}E1", f"{d_.scaleb(1):f}e-1", f"{d_.scaleb(-2):f}e+2"]))
             if draw(st.booleans()):
-                ops.append(f"translate({fmt(tx)}{sep}{fmt(round(draw(st.integers(-40, 40)) / 100 * box.h, 2))})")
+                ops.append(f"translate({sx_}{sep}{fmt(round(draw(st.integers(-40, 40)) / 100 * box.h, 2))})")
             else:
-                ops.append(f"translate({fmt(tx)})")
+                ops.append(f"translate({sx_})")
         elif k == "scale":
             sx = draw(st.sampled_from([0.5, 0.75, 1.5, 2, -1, 1.25, -0.8, 0.6]))
             if draw(st.booleans()):
@@ -394,9 +399,43 @@ def _gen_leaf(draw, cx, hook=None):
     return n
 
 
+def _simple_own_transform(draw, cx, n):
+    """Sometimes gives a reusable element a plain translate / mirror of its own and remembers it, so that a later
+    <use> can undo it exactly."""
+    if not cx.cfg.transforms or draw(st.integers(0, 2)):
+        return
+    if not hasattr(cx, "id_transform"):
+        cx.id_transform = {}
+    if draw(st.integers(0, 2)):
+        p_ = round(draw(st.sampled_from([-0.4, -0.25, 0.2, 0.35])) * cx.box.w, 1)
+        q_ = round(draw(st.sampled_from([-0.3, 0.0, 0.25, 0.4])) * cx.box.h, 1)
+        n["a"]["transform"] = f"translate({fmt(p_)} {fmt(q_)})"
+        cx.id_transform[n["a"]["id"]] = ("translate", (p_, q_))
+    else:
+        sx_, sy_ = draw(st.sampled_from([(-1, 1), (1, -1), (-1, -1)]))
+        n["a"]["transform"] = f"scale({sx_} {sy_})"
+        cx.id_transform[n["a"]["id"]] = ("scale", (sx_, sy_))
+    cx.feat.add("transform")
+
+
 def _gen_use(draw, cx, hook=None):
     tid = draw(st.sampled_from(cx.ids))
     a = {"xlink:href": f"#{tid}"}
+    tt = getattr(cx, "id_transform", {}).get(tid)
+    if tt is not None and draw(st.integers(0, 2)) == 0:
+        # the use undoes its target's own transform exactly (x/y or transform): the copy belongs at the untransformed place
+        kind, (p, q) = tt
+        if kind == "translate":
+            if draw(st.booleans()):
+                a["x"], a["y"] = fmt(-p), fmt(-q)
+            else:
+                a["transform"] = f"translate({fmt(-p)} {fmt(-q)})"
+        else:
+            a["transform"] = f"scale({fmt(p)} {fmt(q)})"  # mirror of a mirrored part: (-1,1)(-1,1) = identity
+        cx.feat.add("use-cancels-target-transform")
+        cx.feat.add("use")
+        cx.nleaves += 1
+        return node("use", a)
     if draw(st.booleans()):
         a["x"] = fmt(round(draw(st.integers(-30, 30)) / 100 * cx.box.w, 2))
     if draw(st.booleans()):
@@ -522,6 +561,7 @@ def _gen_content(draw, cx, depth, hook, allow_nested=True):
         if draw(st.integers(0, 3)) == 0 and not getattr(cx, "in_micro", False):
             n["a"]["id"] = cx.new_id("s")
             cx.ids.append(n["a"]["id"])
+            _simple_own_transform(draw, cx, n)
         return n
     if k == "group":
         g = _gen_group(draw, cx, depth, hook)
@@ -679,6 +719,7 @@ def document_ast(draw, cfg: Cfg, hook=None, root_hook=None):
                 n = _gen_leaf(draw, cx, hook)
                 n["a"]["id"] = cx.new_id("d")
                 cx.ids.append(n["a"]["id"])
+                _simple_own_transform(draw, cx, n)
             else:
                 n = _gen_group(draw, cx, 1, hook)
                 n.pop("_id_after", None)
